@@ -156,6 +156,14 @@ func Alphabet(corner bool) []Sym {
 	jp("json", "add-escaped", `[{"op":"add","path":"/x~1y~0z","value":"esc"}]`)
 	jp("json", "two-ops", `[{"op":"add","path":"/t","value":{}},{"op":"add","path":"/t/u","value":1}]`)
 	jp("json", "fails-second", `[{"op":"add","path":"/t2","value":1},{"op":"remove","path":"/nonexistent"}]`)
+	// a list whose second operation makes the RFC 6902 library panic (negative index) after the first one has been applied
+	jp("json", "fails-second-by-library-panic", `[{"op":"add","path":"/pp","value":[1]},{"op":"replace","path":"/pp/-1","value":2}]`)
+	// "other members" that carry the names of the resolved-document vocabulary, with key- and service-shaped content: they are
+	// other members all the same and never take part in the key / service actions
+	jp("json", "add-verificationMethod", `[{"op":"add","path":"/verificationMethod","value":[{"id":"vm1","type":"JsonWebKey2020","publicKeyJwk":{"kty":"EC","crv":"P-256","x":"eA","y":"eQ"},"purposes":["authentication"]}]}]`)
+	jp("json", "add-services-member", `[{"op":"add","path":"/services","value":[{"id":"sx","type":"T","serviceEndpoint":"https://sx.example/"}]}]`)
+	jp("json", "add-publicKeys-member", `[{"op":"add","path":"/publicKeys","value":[{"id":"kx","type":"JsonWebKey2020","publicKeyJwk":{"kty":"EC","crv":"P-256","x":"eA","y":"eQ"}}]}]`)
+	jp("json", "add-authentication-member", `[{"op":"add","path":"/authentication","value":["#k1"]}]`)
 	if corner {
 		jp("json-corner", "copy-m-then-change-source", `[{"op":"copy","from":"/m","path":"/mc"},{"op":"add","path":"/m/n2","value":5}]`)
 		jp("json-corner", "copy-m-then-change-target", `[{"op":"copy","from":"/m","path":"/mc"},{"op":"add","path":"/mc/n3","value":6}]`)
